@@ -43,6 +43,10 @@ def gen(ctx):
     zero = [ast.unparse(x) for x in ast.walk(fn) if isinstance(x, ast.Assign) and ast.unparse(x.targets[0]) == "avail_needed"]
     if zero != ["avail_needed = int((self.db.min_avail_gb - self.db.avail_gb) * 2 ** 30)", "avail_needed = 0"]:
         raise T.Untranslatable(f"UNTRANSLATABLE: avail_needed assignments changed: {zero}")
+    # "in record order": the candidate query is ordered by the copy's own id (the model's candidate list is in that order)
+    orders = [ast.unparse(x) for x in ast.walk(fn) if isinstance(x, ast.Call) and isinstance(x.func, ast.Attribute) and x.func.attr == "order_by"]
+    if len(orders) != 1 or not orders[0].endswith(".order_by(ArchiveFileCopy.id)"):
+        raise T.Untranslatable(f"UNTRANSLATABLE: candidate order changed: {[o[-60:] for o in orders]}")
     return {"Gen_select": T.HEADER + "\n".join(d) + "\n"}
 
 
@@ -71,8 +75,13 @@ def run_impl(case):
     other = w.mknode(None, "o", g, stype="F", root="/nonexistent2")
     acq = w.ArchiveAcq.create(name="acq")
     ids = []
+    # the file records are made in their own order (case["forder"]), so copy-id order differs from file-id and name order
+    forder = case.get("forder") or list(range(len(case["copies"])))
+    files = {}
+    for i in forder:
+        files[i] = w.ArchiveFile.create(acq=acq, name=f"f{(i * 7) % 97:02d}_{i}", size_b=case["copies"][i]["fsize"], md5sum="0" * 32)
     for i, c in enumerate(case["copies"]):
-        f = w.ArchiveFile.create(acq=acq, name=f"f{i}", size_b=c["fsize"], md5sum="0" * 32)
+        f = files[i]
         cp = w.ArchiveFileCopy.create(file=f, node=node, has_file=c["has"], wants_file=c["wants"], size_b=c["csize"])
         ids.append(cp.id)
         if c["pending"]:
@@ -162,7 +171,10 @@ def gen_case(rng):
             "pending": rng.random() < 0.15,
             "decoys": [rng.choice(["done", "cancelled", "othernode", "othercopy"])] if rng.random() < 0.3 else [],
         })
-    return {"stype": stype, "min": mn, "avail": avail, "copies": copies}
+    forder = list(range(n))
+    if rng.random() < 0.8:
+        rng.shuffle(forder)
+    return {"stype": stype, "min": mn, "avail": avail, "copies": copies, "forder": forder}
 
 
 HAS = {"Y": "HY", "M": "HM", "X": "HX", "N": "HN"}
@@ -176,6 +188,11 @@ def term(case, ids, batches):
 
 
 CORPUS = [
+    # file records made in the reverse order of the copy records: "record order" is the copies' order
+    {"stype": "F", "min": 2048, "avail": 1024, "forder": [2, 1, 0], "copies": [
+        {"has": "Y", "wants": "M", "csize": 2 ** 30, "fsize": None, "pending": False},
+        {"has": "Y", "wants": "M", "csize": 2 ** 30, "fsize": None, "pending": False},
+        {"has": "Y", "wants": "M", "csize": 2 ** 30, "fsize": None, "pending": False}]},
     # upstream test_update_delete_under_min shape: single pass crediting
     {"stype": "F", "min": 2048, "avail": 1024, "copies": [
         {"has": "Y", "wants": "M", "csize": 2 ** 30 // 2, "fsize": None, "pending": False},
